@@ -90,7 +90,7 @@ def gen_session(rng, cfg):
     ncli = 1
     gone = set()
     dropped = set()
-    if rng.random() < 0.12:
+    if rng.random() < 0.08:
         ops += boundary_ops(rng, nodes)          # on a fresh connection (input cbuf at its initial size, empty history)
     for _ in range(rng.randint(4, 25)):
         k = rng.randrange(ncli)
@@ -128,7 +128,7 @@ def gen_session(rng, cfg):
             ops.append("BYTES %d %s" % (k, (line + rng.choice(["\r\n", "\n", "\r\n", " \r\n"])).encode().hex()))
         elif r < 0.67:
             j = rng.choice(JUNK)
-            if rng.random() < 0.06 and k not in gone:
+            if rng.random() < 0.04 and k not in gone:
                 ops.append("DONEALL %d 0 2d" % k); ops += boundary_ops(rng, nodes, k); continue
             if rng.random() < 0.05:
                 # the length gate: strlen(str) = CP_LINEMAX - 1 / CP_LINEMAX / CP_LINEMAX + 1 (and the same with surrounding blanks, which are stripped first)
@@ -362,12 +362,48 @@ def lines_sent(ops):
 def run(ctx, V):
     import pmcheck
     proofs_ok = vlib.proof_gate(ctx, V, extract=["Extract/ExClient.vo", "Extract/ExEnqueue.vo"])
-    correspond(ctx, V, n=400 if ctx.tier == "quick" else 8000)
+    correspond(ctx, V, n=320 if ctx.tier == "quick" else 8000)
     # whole daemon under ASan/UBSan with hostile client input
     exe = pmsim.build(ctx)
-    n = 300 if ctx.tier == "quick" else 10000
+    n = 260 if ctx.tier == "quick" else 10000
     scs = [hostile_scenario(ctx.rng) for _ in range(n)]
-    pmcheck.run_batch(ctx, V, exe, scs, ["alive", "protocol", "wedge"], "c06")
+    pmcheck.MONITORS["c06lines"] = mon_c06_lines
+    pmcheck.run_batch(ctx, V, exe, scs, ["alive", "protocol", "wedge", "c06lines"], "c06")
+
+
+def mon_c06_lines(sess, sc):
+    """C06 on the hostile client's own stream: the i-th complete line it sent is answered by the i-th terminal line (it never has a
+    command in progress unless a 208 shows up, in which case the pairing is skipped); a line whose stripped length is >= CP_LINEMAX gets
+    exactly 203, a shorter one never does, and `nodes` / `help` behind any amount of blanks get 103"""
+    import pmcheck
+    bad = []
+    k = sc.tags.get("hostile")
+    if k is None or not sess.alive_after_script or sess.wedged or sess.overrun or k in sess.closed_clients:
+        return bad
+    data = b"".join(st[2] for st in sc.script if st[0] == "send" and st[1] == k)
+    lines = data.split(b"\n")[:-1]
+    reps = [r for r in (pmcheck.split_replies(sess.client_out.get(k, b"")) or []) if isinstance(r[0], int)]
+    codes = [r[0] for r in reps]
+    if 208 in codes or 101 in codes or len(codes) != len(lines):
+        return bad                      # count mismatches are mon_protocol's business
+    for ln, code in zip(lines, codes):
+        sl = ln.split(b"\0")[0].strip(C_SPACE)
+        if len(sl) >= LINEMAX and code != 203:
+            bad.append(("length-gate", "too-long-accepted", "client %d: a line of %d bytes (>= CP_LINEMAX) was answered %d" % (k, len(sl), code)))
+        if len(sl) < LINEMAX and code == 203:
+            bad.append(("length-gate", "short-refused", "client %d: a line of %d bytes was answered 203" % (k, len(sl))))
+        if sl in (b"nodes", b"help") and code != 103:
+            bad.append(("padded-request", "wrong-reply", "client %d: `%s` (raw line %d bytes) was answered %d" % (k, sl.decode(), len(ln), code)))
+    return bad
+
+
+def after_connects(script):
+    """index of the first step behind the initial connect / wait steps of a generated scenario"""
+    last = max([i for i, st in enumerate(script) if st[0] == "connect"] or [-1])
+    i = last + 1
+    while i < len(script) and script[i][0] == "wait":
+        i += 1
+    return i
 
 
 def hostile_scenario(rng):
@@ -392,6 +428,20 @@ def hostile_scenario(rng):
             extra.append(("send", bad, data[prev:cpos])); prev = cpos
         if rng.random() < 0.5 and len(data) < 2000:
             extra.append(("wait", bad))
+    if rng.random() < 0.22:
+        # requests at the size limits (length gate, giant 209 reply, input cbuf boundary at 1024), in arbitrary segments
+        for op in boundary_ops(rng, sc.cfg.all_nodes(), k=bad):
+            if not op.startswith("BYTES "):
+                continue
+            data = bytes.fromhex(op.split()[2])
+            ncut = rng.choice([0, 0, 1, 2, 5]) if len(data) > 1 else 0
+            cuts = sorted(rng.sample(range(1, len(data)), min(len(data) - 1, ncut))) if ncut else []
+            if rng.random() < 0.3 and len(data) > 30:
+                cuts = sorted(set(cuts + [len(data) - 24, len(data) - 1]))
+            prev = 0
+            for cpos in cuts + [len(data)]:
+                extra.append(("send", bad, data[prev:cpos])); prev = cpos
+            extra.append(("wait", bad))
     if not (extra and extra[-1][0] == "wait"):
         extra.append(("send", bad, b"nodes\r\n")); extra.append(("wait", bad))
     end = rng.choice(["eof", "rst", "none", "quit"])
@@ -399,7 +449,7 @@ def hostile_scenario(rng):
     elif end == "rst": extra.append(("raw", ["RST c%d" % bad]))
     elif end == "quit": extra.append(("send", bad, b"quit\r\n"))
     # interleave the hostile client's steps into the healthy script at a random position
-    pos = rng.randint(2 * ncli, len(sc.script))
+    pos = rng.randint(after_connects(sc.script), len(sc.script))
     sc.script[pos:pos] = extra
     sc.tags["ncli"] = ncli + 1
     sc.tags["hostile"] = bad
@@ -491,5 +541,83 @@ def correspond(ctx, V, n):
         V.sample(dict(config=cfg.text()[:400], ops=ops[:12], stream0=streams.get("0", b"").decode("latin-1")[:400]), limit=2)
 
 
+class TextCfg:
+    """what correspond() needs of a configuration, read back from its text (replay of a recorded case)"""
+    def __init__(self, text):
+        import re, types
+        self._t = text
+        self.aliases = re.findall(r'^alias "([^"]*)" "([^"]*)"', text, re.M)
+        self.devs = [types.SimpleNamespace(name=n, specname=sp) for n, sp in re.findall(r'^device "([^"]*)" "([^"]*)"', text, re.M)]
+    def text(self):
+        return self._t
+
+
+def replay_rclient(ctx, case):
+    """re-run a recorded R-CLIENT case on the current tree: implementation and extracted model side by side, then the monitors"""
+    import C01
+    consts = pmgen.load_genconsts(ctx.coq)
+    cli, enq, model = build_cli(ctx), C01.build_enq(ctx), build_model(ctx)
+    cfg, ops = TextCfg(case["config"]), list(case["ops"])
+    rc, o, e = run_impl(cli, ctx.scratch, 0, cfg, ops)
+    rc2, eo, e2 = vlib.sh(["timeout", "-s", "KILL", "30", enq, os.path.join(ctx.scratch, "cli0.conf")], shell=False, inp=b"", timeout=40, env={"ASAN_OPTIONS": "detect_leaks=0"})
+    minp = "\n".join(defs_for_model(cfg, o, eo, version_of(ctx)) + ops + proto_ops(o)) + "\n"
+    mrc, mo, me = vlib.sh(["timeout", "-s", "KILL", "60", model], shell=False, inp=minp.encode(), timeout=70)
+    il = [l for l in o.splitlines() if not l.startswith("NODES ")]
+    ml = [l for l in mo.splitlines() if not l.startswith("PROTO ")]
+    dec = lambda l: (l.split()[0] + " " + l.split()[1] + " " + repr(bytes.fromhex(l.split()[2]))[:400]) if l.startswith("OUT ") and len(l.split()) == 3 else l[:200]
+    print("---- implementation (rc=%d)" % rc); [print("  " + dec(l)) for l in il]
+    print("---- model (rc=%d)" % mrc); [print("  " + dec(l)) for l in ml]
+    print("---- recogniser Spec.Proto on the implementation's streams"); [print("  " + l) for l in mo.splitlines() if l.startswith("PROTO ")]
+    bad = impl_monitors(ops, il, consts["CP_LINEMAX"])
+    for b in bad: print("MONITOR %s@%s: %s" % b)
+    rej = [l for l in mo.splitlines() if l.startswith("PROTO ") and "ok=true" not in l]
+    verdict = 1 if (rc != 0 or mrc != 0 or il != ml or bad or rej) else 0
+    print("VERDICT: %s" % ("still fails / disagrees" if verdict else "passes on the current tree"))
+    return verdict
+
+
+def replay_history(ctx, case):
+    """re-feed a recorded pmsim history (events per poll round) to the current daemon; print every client's stream and the recogniser's verdict"""
+    import re
+    exe = pmsim.build(ctx)
+    model = build_model(ctx)
+    conf = os.path.join(ctx.scratch, "replay.conf"); open(conf, "w").write(case["config"])
+    sim = pmsim.Sim(exe, conf, env=case.get("env") or None, stderr_path=os.path.join(ctx.scratch, "replay.err"))
+    out = {}
+    for evs in list(case.get("events", [])) + [["SIG TERM"]] * 3:
+        r = sim.next_round()
+        if r is None: break
+        for l in r.lines:
+            w = l.split()
+            if w[0] == "WR" and re.match(r"c\d+$", w[1]):
+                out[w[1]] = out.get(w[1], b"") + bytes.fromhex("" if w[2] == "-" else w[2])
+        sim.send(evs)
+    if not sim.done: sim.kill()
+    print("---- daemon outcome:", sim.done)
+    inp = "".join("PROTO %s %s\n" % (k, b.hex() or "-") for k, b in sorted(out.items()))
+    mrc, mo, me = vlib.sh(["timeout", "-s", "KILL", "60", model], shell=False, inp=inp.encode(), timeout=70)
+    for k, b in sorted(out.items()): print("---- %s received: %r" % (k, b[-1500:]))
+    print(mo)
+    badp = [l for l in mo.splitlines() if l.startswith("PROTO ") and "prefix=true" not in l]
+    died = (sim.done or {}).get("kind") not in ("return", "killed-timeout") or (sim.done or {}).get("status", 0) != 0
+    verdict = 1 if (badp or died) else 0
+    print("VERDICT: %s (the history-specific monitor of the check is not re-evaluated here; the streams above are what it looks at)" % ("still fails" if verdict else "daemon survives, streams are well-formed"))
+    return verdict
+
+
 def replay(ctx, V, path):
-    rep = json.load(open(path)); print(json.dumps(rep, indent=1)[:6000]); return 0
+    rep = json.load(open(path))
+    print(json.dumps({k: v for k, v in rep.items() if k != "case"}, indent=1)[:3000])
+    case = rep.get("case")
+    if rep.get("verdict") == "unproved":
+        for x in rep.get("no_longer_checks", []):
+            if isinstance(x.get("case"), dict) and "ops" in x["case"]:
+                case = x["case"]; break
+    if not isinstance(case, dict):
+        print("no replayable case recorded (a proof / translator failure): re-run ./check %s" % ctx.pid); return 1
+    vlib.proof_gate(ctx, V, extract=["Extract/ExClient.vo", "Extract/ExEnqueue.vo"])
+    if "ops" in case:
+        return replay_rclient(ctx, case)
+    if "events" in case:
+        return replay_history(ctx, case)
+    print(json.dumps(case, indent=1)[:4000]); return 1
